@@ -1147,6 +1147,32 @@ fn gen_cases(seed: u64, thorough: bool) -> Vec<String> {
                 out.push(case_line(0, ep, "cancelq", &totals, &kinds, 0, 4096, 700, Some(0), abort, 0, rng.next() & 0xffff_ffff));
             }
         }
+        // (2t) stalled peer with a write timeout, the stall a small multiple of the timeout (1.2x .. 2.5x;
+        // (2) has 4.5x): the peer is reading again shortly after the timeout cut the victim's frame in
+        // mid-body, so whatever the endpoint still writes on that connection within about one more
+        // timeout period reaches the peer behind the torn frame.  Async server: 400 ms (a deadline for
+        // the whole response); blocking endpoints: 200 ms (SO_SNDTIMEO runs between two moments of
+        // progress, and zero-window probes keep a 400 ms one from ever firing).  A stall so short
+        // that the write still completes in time is an ordinary case as well (all frames whole).
+        // Own generator: the cases above stay what they were.
+        let mut r2 = Rng::new(seed ^ 0x2757_a11e_d000_0000 ^ rep as u64);
+        for ep in ["client", "server", "aserver"] {
+            let tenths: &[u64] = if ep == "aserver" { &[12, 14, 16, 18, 25] } else { &[12, 16, 25] };
+            for (j, x) in tenths.iter().enumerate() {
+                let wt = if ep == "aserver" { 400u64 } else { 200 };
+                let nw = r2.range(3, 5) as usize;
+                let mut kinds = kinds_for(&mut r2, ep, nw);
+                for k in kinds.iter_mut() { if *k == 'c' { *k = 'n'; } }
+                let vsize = if thorough { *r2.pick(&[8 * MIB, 12 * MIB, 24 * MIB, 32 * MIB]) } else { *r2.pick(&[8 * MIB, 10 * MIB]) } + r2.below(5000) as usize;
+                let totals: Vec<Vec<usize>> = (0..nw).map(|t| if t == 0 { vec![vsize] } else { (0..r2.range(1, 3)).map(|_| 48 + 16 + r2.below(1500) as usize).collect() }).collect();
+                // as in (2): client: the victim starts a little after the others; servers: its position
+                // among the requests, 0xff = last of the pipeline.  The middle stall lengths have it last:
+                // a server that ends the connection with requests still unread resets it, and the reset
+                // discards what the peer had not yet taken - the interrupted response and anything behind it
+                let vdelay = if ep == "client" { [0, 3, 10][j] } else if j >= 1 && j + 1 < tenths.len() { 0xff } else { r2.below(3) };
+                out.push(case_line(0, ep, "stall", &totals, &kinds, wt, 4096, wt * x / 10, Some(0), 0, vdelay, r2.next() & 0xffff_ffff));
+            }
+        }
     }
     out.into_iter().enumerate().map(|(i, c)| c.replacen("i=0 ", &format!("i={i:x} "), 1)).collect()
 }
